@@ -301,6 +301,9 @@ func (r *yieldRewriter) rewriteStmt(
 		// ↓↓ trival branch ↓↓
 		// all other stmt are trival,
 		// no rewriting, no combine
+		// e.g., a range stmt left native (ptr to array, func, type param)
+		// keeps its yield calls, which are no-op stubs
+		r.assert(r.mustNoYield(stmt), stmt, "yield not supported in %T", stmt)
 		children.push(stmt, kindTrival)
 		return children
 	}
@@ -372,6 +375,9 @@ func (r *yieldRewriter) rewriteIfStmt(
 		}
 		return block
 	}
+
+	// the init stmt is kept in place, a yield call there would be a no-op stub
+	r.assert(r.mustNoYield(stmt.Init), stmt, "yield not supported in if-init")
 
 	switch alt := stmt.Else.(type) {
 	case nil:
